@@ -807,8 +807,11 @@ func vhLoadCases(d *vhDump, bound int) []vhLoadCase {
 	for _, g := range []struct {
 		name string
 		data []byte
-	}{{"1x00", []byte{0}}, {"newline", []byte("\n")}, {"{}", []byte("{}")}, {"16xff", bytes.Repeat([]byte{0xff}, 16)}, {"manifest doubled", mb}} {
-		cases = append(cases, vhLoadCase{desc: fmt.Sprintf("%smanifest.json appended %s", tag, g.name), lenient: true, mkey: "(appended)", changes: one(manifestFileName, append(append([]byte(nil), mb...), g.data...))})
+	}{{"1x00", []byte{0}}, {"newline", []byte("\n")}, {"{}", []byte("{}")}, {"}", []byte("}")}, {"newline and a word", []byte("\ntrailer")}, {"16xff", bytes.Repeat([]byte{0xff}, 16)}, {"manifest doubled", mb}} {
+		// bytes after the closing brace of the manifest document: only JSON white space can be argued to leave the
+		// input "as produced"; anything else is an extended manifest and must be refused (strict)
+		onlySpace := len(bytes.Trim(g.data, " \t\r\n")) == 0
+		cases = append(cases, vhLoadCase{desc: fmt.Sprintf("%smanifest.json appended %s", tag, g.name), lenient: onlySpace, mkey: "(appended)", changes: one(manifestFileName, append(append([]byte(nil), mb...), g.data...))})
 	}
 	cases = append(cases, vhLoadCase{desc: tag + "manifest.json deleted", changes: one(manifestFileName, vhDeleted)})
 	cases = append(cases, vhLoadCase{desc: tag + "manifest.json empty", changes: one(manifestFileName, []byte{})})
